@@ -372,6 +372,35 @@ def r11_12(run, model):
            witness="the file `let s = \\\\one<CR><LF> \\\\two<CR><LF>;` saved with CRLF line ends: the literal denotes \"one\\ntwo\\r\" (LF file: \"one\\ntwo\")")
 
 
+def r11_14(run, model):
+    run.rule("R11.14", "nested tuple projections parse back: `t.1.0` needs no parentheses (`.` is left-associative), but the lexer's longest match "
+                       "reads `1.0` as one Float token, so the lowering of `lhs . rhs` accepts a float token of the form digits.digits as two "
+                       "projections")
+    toks = {n: (k, t) for n, k, t in TB.token_kinds(model)}
+    fl = toks.get("Float")
+    if fl is None or fl[1] is None:
+        raise AnalysisIncomplete("lexer: Float token not found")
+    import re as _re
+    premise = _re.fullmatch(fl[1], "1.0") is not None if fl[0] == "regex" else False
+    f = model.fn("lower_expr_with_args", LOWER)
+    target = None
+    for m in S.find(f.body, "Match"):
+        pats = [S.norm_ws(run.facts.text(LOWER, a["pat"]["sp"])) for a in m["arms"]]
+        if any("IntExpr" in p for p in pats) and any("IdentExpr" in p for p in pats) and any(True for _ in S.find(m, "Struct")) \
+                and "EProj" in S.norm_ws(run.facts.text(LOWER, m["sp"])):
+            if target is None or len(pats) < len(target[1]):
+                target = (m, pats)
+    if target is None:
+        raise AnalysisIncomplete("lower_expr_with_args: the match on the right operand of `.` was not found")
+    m, pats = target
+    arm = next((a for a, p in zip(m["arms"], pats) if "FloatExpr" in p), None)
+    ok = (not premise) or (arm is not None and "EProj" in S.norm_ws(run.facts.text(LOWER, arm["body"]["sp"])))
+    run.ob("R11.14", "member access|a float token after `.` is read as two tuple indices", ok, site(LOWER, (arm or m)["sp"]),
+           f"lexer Float = /{fl[1]}/ matches `1.0`: {premise}; right-operand kinds handled: {[p.split('::')[-1][:24] for p in pats]}",
+           witness="let t = (1, (2, 3)); t.1.0 is rejected with `Unsupported field access expression`, while (t.1).0 compiles and the "
+                   "compiler's own printer renders it as t.1.0")
+
+
 def r11_10(run, model):
     run.rule("R11.10", "the Pratt loop stops an operand exactly when the next operator binds *less* tightly than the context (`l_bp < min_bp`): "
                        "with `<=` equal powers stop too, and the only tie the tables allow - prefix (r_bp) against `.` (l_bp) - flips: "
@@ -411,6 +440,7 @@ def run(run, model):
     run.try_rule(r11_8, model)
     run.try_rule(r11_9, model)
     run.try_rule(r11_12, model)
+    run.try_rule(r11_14, model)
     run.try_rule(r11_6, model)
     run.try_rule(r11_7, model)
     run.try_rule(r11_1, model)
